@@ -3,13 +3,13 @@ CONSTANTS
   Xtis <- XtisT
   NSheets = 3
   NNames = 2
-  Leaves <- L_small
-  Bins = {"+", "-", "*", "/", "^", "&", "<", "<=", "=", ">", ">=", "<>", " ", ",", ":"}
+  Leaves <- L_abs
+  Bins = {"+"}
   Uns <- U_all
   Funcs <- None
   Groups = {}
-  MaxTok = 5
+  MaxTok = 3
   FxAll = TRUE
-  Shared = FALSE
+  Shared = TRUE
 INVARIANTS Refines
 CHECK_DEADLOCK FALSE
